@@ -133,3 +133,96 @@ func RunContext(tokens []CtxToken) CtxVerdict {
 	v.OK = true
 	return v
 }
+
+// ---- sequences spread over INCLUDEd files ----
+
+// CtxEvent: a token written in file File, or the end of an included file.
+type CtxEvent struct {
+	Tok     CtxToken
+	File    int  // file in which the token is written
+	EndFile bool // the included file File ends here (the root file ends with the sequence)
+}
+
+type ctxEntryF struct {
+	ctxEntry
+	file int
+}
+
+// RunContextFiles interprets a token sequence that is spread over files: an explicit context must be closed in the
+// file that opened it (at the end of an included file only the parentheses opened in that file count; at the end
+// of the root file all of them), while a ')' closes the innermost explicit context wherever that was opened.
+// ErrAt is the index of the offending event.
+func RunContextFiles(events []CtxEvent) CtxVerdict {
+	var v CtxVerdict
+	var stack []ctxEntryF
+	for i, ev := range events {
+		t := ev.Tok
+		switch {
+		case ev.EndFile:
+			for _, e := range stack {
+				if e.explicit && e.file == ev.File {
+					v.ErrAt, v.Class = i, "not-closed"
+					return v
+				}
+			}
+		case t.Close:
+			closed := false
+			for len(stack) > 0 {
+				top := stack[len(stack)-1]
+				stack = stack[:len(stack)-1]
+				if top.explicit {
+					closed = true
+					break
+				}
+			}
+			if !closed {
+				v.ErrAt, v.Class = i, "nothing-to-close"
+				return v
+			}
+		default:
+			node := len(v.Nodes)
+			for {
+				if len(stack) == 0 {
+					if !rootAllowed[t.Kind] {
+						v.ErrAt, v.Class = i, "incorrect-context"
+						return v
+					}
+					v.Nodes = append(v.Nodes, i)
+					v.Parents = append(v.Parents, -1)
+					stack = append(stack, ctxEntryF{ctxEntry{t.Kind, t.Explicit, node}, ev.File})
+					break
+				}
+				top := stack[len(stack)-1]
+				if childAllowed[top.kind][t.Kind] {
+					if IsMethodKind(t.Kind) && t.HasPath && top.kind == "URL" {
+						if top.explicit {
+							v.ErrAt, v.Class = i, "incorrect-context"
+							return v
+						}
+						v.Nodes = append(v.Nodes, i)
+						v.Parents = append(v.Parents, -1)
+						stack = []ctxEntryF{{ctxEntry{t.Kind, t.Explicit, node}, ev.File}}
+						break
+					}
+					v.Nodes = append(v.Nodes, i)
+					v.Parents = append(v.Parents, top.node)
+					stack = append(stack, ctxEntryF{ctxEntry{t.Kind, t.Explicit, node}, ev.File})
+					break
+				}
+				if top.explicit {
+					v.ErrAt, v.Class = i, "incorrect-context"
+					return v
+				}
+				stack = stack[:len(stack)-1]
+			}
+		}
+	}
+	for _, e := range stack {
+		if e.explicit {
+			v.ErrAt, v.Class = len(events), "not-closed"
+			return v
+		}
+	}
+	v.OK = true
+	return v
+}
